@@ -23,7 +23,11 @@ const CAP: usize = 1 << 21;
 const MASK: usize = CAP - 1;
 const QCAP: usize = 1 << 16;
 const QBYTES_MAX: usize = 256 << 20;
-const HUGE_ALLOC: usize = 2 << 30;
+/// Blocks above this size are neither junk-filled nor poisoned (the memory is never touched by the
+/// tracker, as on a real system with overcommit); blocks above HUGE_REFUSE are refused like a real
+/// allocator would refuse them on this machine.
+const HUGE_NOFILL: usize = 1 << 30;
+const HUGE_REFUSE: usize = 48 << 30;
 
 const ST_EMPTY: u8 = 0;
 const ST_LIVE: u8 = 1;
@@ -218,17 +222,20 @@ unsafe fn drain_quarantine(keep: usize) {
 unsafe impl GlobalAlloc for Tracker {
     unsafe fn alloc(&self, layout: Layout) -> *mut u8 {
         // No workload of the harness needs a block this large; a library that asks for one is acting on
-        // garbage (e.g. a length read after a swallowed I/O error). Refuse it: the resulting abort is
-        // reported through the crash path with an exact replay, instead of junk-filling terabytes of
-        // overcommitted memory until the kernel kills the worker.
-        if layout.size() > HUGE_ALLOC {
+        // garbage (e.g. a length read after a swallowed I/O error). Above 48 GiB (more than this
+        // machine could ever back) the request is refused, as the system allocator would; the resulting
+        // abort is reported through the crash path with an exact replay. Between 1 GiB and 48 GiB the
+        // block is handed out untouched: junk-filling overcommitted memory got workers OOM-killed.
+        if layout.size() > HUGE_REFUSE {
             return std::ptr::null_mut();
         }
         let p = System.alloc(layout);
         if p.is_null() {
             return p;
         }
-        std::ptr::write_bytes(p, 0xA5, layout.size());
+        if layout.size() <= HUGE_NOFILL {
+            std::ptr::write_bytes(p, 0xA5, layout.size());
+        }
         let depth = LIB_DEPTH.with(|d| d.get());
         let op = CUR_OP.with(|d| d.get());
         let armed = ARMED.load(Ordering::Relaxed);
@@ -276,7 +283,7 @@ unsafe impl GlobalAlloc for Tracker {
             LIB_LIVE.fetch_sub(1, Ordering::Relaxed);
             LIB_LIVE_BYTES.fetch_sub(e.size, Ordering::Relaxed);
         }
-        if armed {
+        if armed && e.size <= HUGE_NOFILL {
             std::ptr::write_bytes(ptr, 0xDD, e.size);
             (*std::ptr::addr_of_mut!(TABLE))[i].state = ST_QUAR;
             if QLEN >= QCAP || QBYTES + e.size > QBYTES_MAX {
